@@ -1,4 +1,5 @@
 import CfbVerif.Phys.Api
+import CfbVerif.Phys.Codec
 /-!
 # C02 — write-through persistence: the byte image always reopens to the same state
 
@@ -67,79 +68,19 @@ theorem C02_continue_same (ps1 ps2 : PState) (hs : ps1.s = ps2.s) (op : HOp) :
     (pstep ps1 op).2.1 = (pstep ps2 op).2.1 := by
   rw [C02_results_ignore_layout, C02_results_ignore_layout, hs]
 
-/-! ### the little-endian codec step -/
-
-theorem get!_push_lt (b : ByteArray) (x : UInt8) (i : Nat) (h : i < b.size) : (b.push x).get! i = b.get! i := by
-  cases b with
-  | mk d =>
-    show (d.push x)[i]! = d[i]!
-    have h' : i < d.size := h
-    rw [getElem!_pos (d.push x) i (by simp; omega), getElem!_pos d i h']
-    exact Array.getElem_push_lt h'
-
-theorem get!_push_eq (b : ByteArray) (x : UInt8) : (b.push x).get! b.size = x := by
-  cases b with
-  | mk d =>
-    show (d.push x)[d.size]! = x
-    rw [getElem!_pos (d.push x) d.size (by simp)]
-    exact Array.getElem_push_eq
-
-theorem leN_push_frame (b : ByteArray) (x : UInt8) (w off : Nat) (h : off + w ≤ b.size) :
-    leN (b.push x) off w = leN b off w := by
-  induction w generalizing off with
-  | zero => rfl
-  | succ w ih =>
-    unfold leN
-    have hu : u8 (b.push x) off = u8 b off := by
-      unfold u8
-      rw [if_pos (by rw [ByteArray.size_push]; omega), if_pos (by omega)]
-      rw [get!_push_lt b x off (by omega)]
-    rw [hu, ih (off + 1) (by omega)]
-
-theorem leN_pushLE_frame (w : Nat) : ∀ (b : ByteArray) (n w' off : Nat), off + w' ≤ b.size →
-    leN (pushLE b w n) off w' = leN b off w' := by
-  induction w with
-  | zero => intro b n w' off _; rfl
-  | succ w ih =>
-    intro b n w' off h
-    unfold pushLE
-    rw [ih _ _ _ _ (by rw [ByteArray.size_push]; omega)]
-    exact leN_push_frame b _ w' off h
-
-theorem size_pushLE (w : Nat) : ∀ (b : ByteArray) (n : Nat), (pushLE b w n).size = b.size + w := by
-  induction w with
-  | zero => intro b n; rfl
-  | succ w ih => intro b n; unfold pushLE; rw [ih, ByteArray.size_push]; omega
+/-! ### the codec: little-endian fields and whole directory entries (`Phys/LE.lean`, `Phys/Codec.lean`) -/
 
 /-- a `w`-byte little-endian field appended by the renderer is read back by the reader model -/
-theorem C02_le_roundtrip (w : Nat) : ∀ (b : ByteArray) (n : Nat),
-    leN (pushLE b w n) b.size w = some (n % 256 ^ w) := by
-  induction w with
-  | zero => intro b n; simp [leN, Nat.mod_one]
-  | succ w ih =>
-    intro b n
-    unfold pushLE leN
-    have hsz : (b.push (UInt8.ofNat (n % 256))).size = b.size + 1 := ByteArray.size_push
-    have hu : u8 (pushLE (b.push (UInt8.ofNat (n % 256))) w (n / 256)) b.size = some (n % 256) := by
-      have hf := leN_pushLE_frame w (b.push (UInt8.ofNat (n % 256))) (n / 256) 1 b.size (by omega)
-      have h1 : leN (b.push (UInt8.ofNat (n % 256))) b.size 1 = some (n % 256) := by
-        unfold leN leN u8
-        rw [if_pos (by omega)]
-        rw [get!_push_eq]
-        have : (UInt8.ofNat (n % 256)).toNat = n % 256 := by
-          simp
-        simp [this]
-      rw [h1] at hf
-      unfold leN leN at hf
-      cases hx : u8 (pushLE (b.push (UInt8.ofNat (n % 256))) w (n / 256)) b.size with
-      | none => simp [hx] at hf
-      | some v => simp [hx] at hf; rw [hf]
-    rw [hu]
-    have := ih (b.push (UInt8.ofNat (n % 256))) (n / 256)
-    rw [hsz] at this
-    rw [this]
-    simp only [Option.some.injEq]
-    rw [Nat.pow_succ, Nat.mul_comm (256 ^ w) 256, Nat.mod_mul]
+theorem C02_le_roundtrip (w : Nat) (b : ByteArray) (n : Nat) :
+    leN (pushLE b w n) b.size w = some (n % 256 ^ w) := le_roundtrip w b n
+
+/-- every field of a rendered directory entry is read back at its offset, whatever follows -/
+theorem C02_entry_codec (b : ByteArray) (r : Row) (start len : Nat) (rest : List (Nat × Nat))
+    (k : Nat) (hk : k < (entryFields r start len).length) :
+    leN (pushFields (renderEntry b r start len) rest) (b.size + widthSum ((entryFields r start len).take k))
+      (entryFields r start len)[k].1 =
+    some ((entryFields r start len)[k].2 % 256 ^ (entryFields r start len)[k].1) :=
+  entry_field_roundtrip b r start len rest k hk
 
 example : leN (pushLE ByteArray.empty 4 0xFFFFFFFE) 0 4 = some 0xFFFFFFFE := by
   have := C02_le_roundtrip 4 ByteArray.empty 0xFFFFFFFE
